@@ -11,6 +11,7 @@ pub const CORPUS_DEFAULT: &str = "/verif/corpus/roots.txt";
 const CORPUS_BUILTIN: &str = include_str!("../../corpus/roots.txt");
 
 pub struct Corpus {
+    pub ep_without_predecessor: usize,
     pub fens: Vec<String>,
     pub boards: Vec<Board>,
     pub rejected: usize,
@@ -20,7 +21,7 @@ pub struct Corpus {
 pub fn load_corpus() -> Corpus {
     let path = std::env::var("VERIF_CORPUS").unwrap_or_else(|_| CORPUS_DEFAULT.to_string());
     let text = std::fs::read_to_string(&path).unwrap_or_else(|_| CORPUS_BUILTIN.to_string());
-    let mut c = Corpus { fens: vec![], boards: vec![], rejected: 0, derived: 0 };
+    let mut c = Corpus { ep_without_predecessor: 0, fens: vec![], boards: vec![], rejected: 0, derived: 0 };
     for l in text.lines() {
         let l = l.trim();
         if l.is_empty() || l.starts_with('#') {
@@ -28,6 +29,12 @@ pub fn load_corpus() -> Corpus {
         }
         match guard(|| Board::from_str(l).ok()) {
             Some(Some(b)) => {
+                if !ep_has_predecessor(&b) {
+                    if std::env::var("HDEBUG").is_ok() {
+                        eprintln!("corpus ep mark without predecessor: {}", l);
+                    }
+                    c.ep_without_predecessor += 1;
+                }
                 c.fens.push(l.to_string());
                 c.boards.push(b);
             }
@@ -189,6 +196,9 @@ pub fn playout(rng: &mut Rng, root: &Board, plies: usize, style: Style, null_pct
             if let Some(Some(n)) = guard(|| b.null_move()) {
                 // only keep the null move when the result is still something the crate accepts
                 v.push(Step { before: b, mv: None, after: n });
+                if !guard(|| n.is_sane()).unwrap_or(false) {
+                    break;
+                }
                 b = n;
                 continue;
             }
@@ -201,6 +211,11 @@ pub fn playout(rng: &mut Rng, root: &Board, plies: usize, style: Style, null_pct
         match guard(|| b.make_move_new(m)) {
             Some(n) => {
                 v.push(Step { before: b, mv: Some(m), after: n });
+                // a successor the crate itself calls insane is evidence (it is emitted by the
+                // caller), but nothing sensible can be played from it
+                if !guard(|| n.is_sane()).unwrap_or(false) {
+                    break;
+                }
                 b = n;
             }
             None => break,
@@ -325,12 +340,37 @@ pub fn synth_candidate(rng: &mut Rng, men: usize) -> BD {
     d
 }
 
-/// A synthesized position the crate accepts (density 2..=32 men). `None` after 200 failed tries.
+/// The en-passant mark of `b` has a predecessor: with the marked pawn put back on its start square
+/// (both squares behind it empty) and the other side to move, the crate accepts the position, i.e.
+/// the king of the side now to move was not attacked before the double push. Vacuously true
+/// without a mark.
+pub fn ep_has_predecessor(b: &Board) -> bool {
+    let s = match b.en_passant() {
+        Some(s) => s.to_index(),
+        None => return true,
+    };
+    let mut d = BD::of_board(b);
+    let pusher = !d.stm;
+    let (mid, origin) = if pusher == Color::White { (s.wrapping_sub(8), s.wrapping_sub(16)) } else { (s + 8, s + 16) };
+    if origin >= 64 || d.sq[s] != Some((Piece::Pawn, pusher)) || d.sq[mid].is_some() || d.sq[origin].is_some() {
+        return false;
+    }
+    d.sq[s] = None;
+    d.sq[origin] = Some((Piece::Pawn, pusher));
+    d.stm = pusher;
+    d.ep = None;
+    matches!(guard(|| Board::try_from(&d.builder()).ok()), Some(Some(_)))
+}
+
+/// A synthesized position the crate accepts (density 2..=32 men) and whose en-passant mark, if any,
+/// has a predecessor. `None` after 200 failed tries.
 pub fn synth_valid(rng: &mut Rng, men: usize) -> Option<Board> {
     for _ in 0..200 {
         let d = synth_candidate(rng, men);
         if let Some(Some(b)) = guard(|| Board::try_from(&d.builder()).ok()) {
-            return Some(b);
+            if ep_has_predecessor(&b) {
+                return Some(b);
+            }
         }
     }
     None
